@@ -791,6 +791,10 @@ def _exec_run(net, op, ow_op, i, ctx, ctrl_desc, tmpdir, owm):
                     gn, wn = np.isnan(got), np.isnan(w)
                     mism = gn != wn
                     oos = ~net[el].in_service.reindex(cols).values.astype(bool)
+                    # (a branch with an open switch at one of its ends is not calculated either)
+                    et_code = {"line": "l", "trafo": "t", "trafo3w": "t3"}[el]
+                    sw = net.switch[(net.switch.et == et_code) & ~net.switch.closed.astype(bool)]
+                    oos = oos | np.isin(np.asarray(cols), sw.element.values)
                     other = np.where(gn, w, got)[mism]
                     if mism.any() and oos[mism].all() and np.all(other == 0.0) and \
                             not oracles.compare_arrays(got[~mism], w[~mism], 1e-6, 1e-6):
